@@ -62,9 +62,13 @@ Record xres (D : Type) := mkX {
 Definition nilb (A : Type) (l : list A) : bool := match l with [] => true | _ => false end.
 
 (* "no more input will come, there is room for output, but we are still in
-   the middle of a stream" (decompressors only) *)
-Definition trunc_now (dec : bool) (rest : list N) (cap : nat) (fl : flush) (mid : bool) : bool :=
-  dec && nilb rest && (0 <? cap) && is_full fl && mid.
+   the middle of a stream": the call made no progress at all, nothing is left
+   of the input, the caller promised that no more will come, and the decoder
+   has consumed part of a member (decompressors only) *)
+Definition no_progress (cons : nat) (out : list N) : bool := (cons =? 0) && nilb out.
+
+Definition trunc_now (dec : bool) (noprog : bool) (rest : list N) (fl : flush) (mid : bool) : bool :=
+  noprog && dec && nilb rest && is_full fl && mid.
 
 Section Drivers.
 Variable S : Type.
@@ -90,7 +94,7 @@ Fixpoint drv_zlib (fuel : nat) (st : S) (inp : list N) (cap : nat) (fl : flush)
         match s with
         | LEnd => mkX ci' co' XEnd (c_reset C (l_st r))
         | LBuf =>
-          if trunc_now dec inp' cap' fl (c_mid C (l_st r))
+          if trunc_now dec (no_progress (l_cons r) (l_out r)) inp' fl (c_mid C (l_st r))
           then mkX ci' co' XErr (l_st r)
           else mkX ci' co' XBuf (l_st r)
         | _ => drv_zlib f (l_st r) inp' cap' fl ci' co'
@@ -120,8 +124,8 @@ Fixpoint drv_bzip2 (fuel : nat) (st : S) (inp : list N) (cap : nat) (fl : flush)
         match s with
         | LEnd => mkX ci' co' XEnd (c_reset C (l_st r))
         | _ =>
-          if (l_cons r =? 0) && nilb (l_out r) then
-            if dec && nilb inp' && is_full fl && c_mid C (l_st r)
+          if no_progress (l_cons r) (l_out r) then
+            if trunc_now dec true inp' fl (c_mid C (l_st r))
             then mkX ci' co' XErr (l_st r)
             else mkX ci' co' XBuf (l_st r)
           else drv_bzip2 f (l_st r) inp' cap' fl ci' co'
@@ -154,10 +158,10 @@ Fixpoint drv_zstd (fuel : nat) (st : S * bool) (inp : list N) (cap : nat) (fl : 
         let co' := co ++ l_out r in
         let ret0 := match s with LEnd => true | _ => false end in
         let pending' := if dec then negb ret0 else negb (ret0 && negb (is_none fl)) in
-        if (l_cons r =? 0) && nilb (l_out r) then
-          if dec && nilb inp' && is_full fl
-          then mkX ci' co' XErr (l_st r, pending')
-          else mkX ci' co' XBuf (l_st r, pending')
+        if no_progress (l_cons r) (l_out r) && trunc_now dec true inp' fl pending'
+        then mkX ci' co' XErr (l_st r, pending')
+        else if no_progress (l_cons r) (l_out r) && (pending' || negb (nilb inp'))
+        then mkX ci' co' XBuf (l_st r, pending')
         else drv_zstd f (l_st r, pending') inp' cap' fl ci' co'
       end
     else mkX ci co (zstd_after inp cap fl pending) st
